@@ -229,7 +229,7 @@ RANDOM = (" Binding T as well: seeded random programs (harness/g_exec.go) are ex
           "every recorded run is accepted or rejected event by event by spec/props/ExecTrace.tla, which computes the reference run from the "
           "program it finds in the trace; header forms of the property's tags are replayed from source bytes (Tags_Src.tla).")
 ADD = {
-    "C01": " A negative module (C01_TokenBound) has TLC refute 'every token consumes input'; tokeniser-failing fragments are injected at every position of a corpus; the structured sources of the byte-level grammars (C20_Src, Mix_Src, C06_Src) are parsed too; 14 long flat runs (prefix and postfix chains, conditionals, sums, interpolation parts, elseif branches) are parsed under a 64 MB stack limit.",
+    "C01": " A negative module (C01_TokenBound) has TLC refute 'every token consumes input'; tokeniser-failing fragments are injected at every position of a corpus; the structured sources of the byte-level grammars (C20_Src, Mix_Src, C06_Src) are parsed too; 28 long flat runs (prefix and postfix chains, conditionals, sums, interpolation parts, elseif branches, names after a test, argument / parameter / import / alias lists) are parsed under a 64 MB stack limit.",
     "C02": RANDOM + " Loader family: every template-loading form x the library's own loaders x empty/missing/odd/non-string names.",
     "C03": " Byte-level families: " + SRC + "C03_Src.tla (lone delimiter characters next to constructs, verbatim sandwiches) and Mix_Src.tla (balanced "
            "sequences over all body-opening tags) are decided by that pipeline and rendered by the real code; delimiter-free templates of 12 sizes through the recording, memory and filesystem loaders.",
